@@ -3,6 +3,7 @@ From Coq Require Import List Bool Arith ZArith NArith Lia.
 From XD Require Import lib.ListAux lib.Toposort model.Manager model.ManagerData
   proofs.ManagerIdx proofs.ManagerInv proofs.ManagerTrace proofs.ManagerDataInv proofs.Store proofs.ManagerC01
   proofs.ManagerFun.
+From XD Require Import model.TasksSem model.TasksSemData gen.GenTasks gen.GenTasksData proofs.TasksSrc proofs.TasksSrcData.
 Import ListNotations.
 Local Open Scope nat_scope.
 
@@ -55,6 +56,17 @@ Theorem C13_equiv_partial : forall (ts : list (path * @task path action)) (L : l
   forall a, In a L -> nget sa a = nget sb a.
 Proof. exact consistent_unique. Qed.
 
+(* tie to the source (gen/GenTasksData.v, regenerated on every run): the body lines that Manager.mk_fun writes — one
+   "ref_i = arg_i" per argument, then str(task) of every task found from the arguments' dependency sets — executed top
+   to bottom on the plain containers (what gen_fun's exec() does) are the model's MGenFun step, whenever the listed tasks
+   are expression tasks (the only ones whose printed form is a statement) *)
+Theorem C13_gen_fun_is_source : forall (m : dmgr) s args sd so,
+  (forall tl m', find_tasks path_eqb m sd so = Ok (tl, m') -> Forall is_expr_task tl) ->
+  src_gen_fun_call (map fst args) (map snd args) sd so (m, s, []) =
+  let '(m', s', out) := step m s (MGenFun args sd so) in ((m', s', o_trace out), res_of (o_err out)).
+Proof. exact src_gen_fun_eq. Qed.
+
 Print Assumptions C13_source.
 Print Assumptions C13_exec_consistent_partial.
 Print Assumptions C13_equiv_partial.
+Print Assumptions C13_gen_fun_is_source.
